@@ -79,8 +79,10 @@ def r1(ctx: Context) -> None:
         reg_names = names_in(c.args[0]) if c.args else set()
         for n in g.nodes:
             if n.kind == "for" and isinstance(n.ast, ast.For) and names_in(n.ast.iter) & reg_names:
-                if any(call_name(x) == "index_arguments_for_concurrency_control" and x.args and names_in(x.args[0]) & names_in(n.ast.target) for x in calls_in(n.ast)):
-                    idx_nodes.add(n.id)
+                top_level = [st for st in n.ast.body if isinstance(st, ast.Expr) and isinstance(st.value, ast.Call) and call_name(st.value) == "index_arguments_for_concurrency_control" and st.value.args and names_in(st.value.args[0]) & names_in(n.ast.target)]
+                skips_before = [x for st in n.ast.body for x in ast.walk(st) if isinstance(x, (ast.Continue, ast.Break, ast.Return)) and top_level and x.lineno < top_level[0].lineno]
+                if top_level and not skips_before:
+                    idx_nodes.add(n.id)  # every element of the registered collection is indexed unconditionally
         # blocked edges: (test node id, label) implying disabled
         blocked = set()
         for n in g.nodes:
@@ -342,6 +344,16 @@ def r5(ctx: Context, sites) -> None:
             inter = [c for c in calls_in(o.node) if call_name(c) == "intersection"]
             ok = len(inter) >= 3 and "task_matches" in ast.unparse(o.node)
             ctx.add("R5", f"{o.qualname}::task-and-status-filters-ANDed", ok, o.loc(), "" if ok else "task / key / status matches are not intersected")
+    # lookups are read-only: they must not mutate the index they read (directly or through an alias)
+    from ..flow import aliased_store_mutations, mem_store_writes
+
+    for o in [x for x in repo.overrides(base, "get_existing_invocations") if not x.is_abstract]:
+        helpers = [o] + [h for c in calls_in(o.node) if isinstance(c.func, ast.Attribute) and isinstance(c.func.value, ast.Name) and c.func.value.id == "self" and o.cls is not None for h in [o.cls.find_method(c.func.attr)] if h is not None and h is not o]
+        for h in helpers:
+            muts = [(n_, "self." + w_) for n_, _, w_ in aliased_store_mutations(h.node)] + [(w.node, "self." + w.attr) for w in mem_store_writes(h.node) if not w.how.startswith("rebind")]
+            okp = not muts
+            ctx.add("R5", f"{h.qualname}::lookup-does-not-mutate-the-index", okp, h.loc(muts[0][0]) if muts else h.loc(),
+                    "" if okp else f"the same-key lookup modifies {muts[0][1]} in place ({ast.unparse(muts[0][0])[:60]}): entries of invocations that are still PENDING/RUNNING disappear from the argument index, so later same-key invocations are not blocked")
     for o in [x for x in repo.overrides(base, "index_arguments_for_concurrency_control") if not x.is_abstract]:
         loops = [n for n in walk_no_nested(o.node) if isinstance(n, ast.For) and ast.unparse(n.iter) == f"{o.params[1]}.call.serialized_arguments.items()"]
         ok = bool(loops) and f"{o.params[1]}.invocation_id" in ast.unparse(loops[0])
